@@ -44,7 +44,9 @@ type C13Elem struct {
 	Val  int64  `json:"val,omitempty"`
 }
 
-var c13Templates = []string{"[]int64", "[]interface", "[24]int64", "map[string]int64", "[]*int64", "map[interface]interface", "struct", "nil-list", "nil-map", "[][]int64", "mixed", "mixed"}
+// "rec:<template>": the same keyed document written as a record (@r<"K0" "K1" ...> @r{v0 v1 ...}) instead of a map
+var c13Templates = []string{"[]int64", "[]interface", "[24]int64", "map[string]int64", "[]*int64", "map[interface]interface", "struct", "nil-list", "nil-map", "[][]int64", "mixed", "mixed",
+	"rec:struct", "rec:map[string]int64", "rec:nil-map", "rec:map[interface]interface"}
 
 // c13Mixed / c13MixedDoc: destinations of different integer types, so that a reference is resolved into
 // a slot of another Go type than the object built for its marker (struct field -> map value and back)
@@ -72,7 +74,7 @@ func genC13Build(t *rapid.T) *C13Case {
 	c := &C13Case{Mutation: "build", MaxIDLen: 1000, Format: rapid.SampledFrom([]string{"cbe", "cte"}).Draw(t, "format"),
 		Tmpl: rapid.SampledFrom(c13Templates).Draw(t, "tmpl")}
 	n := rapid.IntRange(1, 24).Draw(t, "n")
-	if c.Tmpl == "struct" && n > 8 {
+	if strings.HasSuffix(c.Tmpl, "struct") && n > 8 {
 		n = 8
 	}
 	// first choose which positions are marked, then let references point to any marked position
@@ -137,16 +139,25 @@ func (c *C13Case) buildEvents() []ev.Event {
 		}
 		return append(evs, ev.Event{K: ev.End}, ev.Event{K: ev.End}, ev.Event{K: ev.ED})
 	}
-	isMap := strings.HasPrefix(c.Tmpl, "map") || c.Tmpl == "struct" || c.Tmpl == "nil-map"
+	isRec := strings.HasPrefix(c.Tmpl, "rec:")
+	tmpl := strings.TrimPrefix(c.Tmpl, "rec:")
+	isMap := strings.HasPrefix(tmpl, "map") || tmpl == "struct" || tmpl == "nil-map"
 	nested := c.Tmpl == "[][]int64"
 	evs := []ev.Event{{K: ev.BD}, {K: ev.Version}}
-	if isMap {
+	switch {
+	case isRec:
+		evs = append(evs, ev.Event{K: ev.RecordType, Bs: []byte("r")})
+		for i := range c.Elems {
+			evs = append(evs, ev.Event{K: ev.StringArray, AT: events.ArrayTypeString, S: fmt.Sprintf("K%d", i)})
+		}
+		evs = append(evs, ev.Event{K: ev.End}, ev.Event{K: ev.Record, Bs: []byte("r")})
+	case isMap:
 		evs = append(evs, ev.Event{K: ev.Map})
-	} else {
+	default:
 		evs = append(evs, ev.Event{K: ev.List})
 	}
 	for i, e := range c.Elems {
-		if isMap {
+		if isMap && !isRec {
 			evs = append(evs, ev.Event{K: ev.StringArray, AT: events.ArrayTypeString, S: fmt.Sprintf("K%d", i)})
 		}
 		val := []ev.Event{{K: ev.Int, I: e.Val}}
@@ -167,7 +178,7 @@ func (c *C13Case) buildEvents() []ev.Event {
 }
 
 func (c *C13Case) template() interface{} {
-	switch c.Tmpl {
+	switch strings.TrimPrefix(c.Tmpl, "rec:") {
 	case "[]int64":
 		return []int64{}
 	case "[]interface":
@@ -517,7 +528,7 @@ func genC13(t *rapid.T, ctx *Ctx) interface{} {
 	evs := gen.Document(t, c13Opts(ctx))
 	markers := findKinds(evs, ev.Marker)
 	refs := findKinds(evs, ev.RefLocal)
-	muts := []string{"none", "none", "none", "unknown-ref", "dup-marker", "bad-id", "long-id", "marker-on-marker", "marker-on-ref", "drop-marker",
+	muts := []string{"none", "none", "none", "unknown-ref", "dup-marker", "bad-id", "long-id", "marker-on-marker", "marker-on-ref", "marker-on-remote-ref", "drop-marker",
 		"key-ref-nonkeyable", "key-ref-keyable", "marker-before-end", "rename-consistently"}
 	c.Mutation = muts[rapid.IntRange(0, len(muts)-1).Draw(t, "mutation")]
 	pick := func(xs []int, l string) int { return xs[rapid.IntRange(0, len(xs)-1).Draw(t, l)] }
@@ -586,6 +597,25 @@ func genC13(t *rapid.T, ctx *Ctx) interface{} {
 			break
 		}
 		evs = insertEvent(evs, pick(refs, "mr"), ev.Event{K: ev.Marker, Bs: []byte("extra")})
+	case "marker-on-remote-ref":
+		// a new list element: a marker followed by a remote reference, through each of the three ways an array
+		// can be delivered (the CBE decoder always sends begin + chunks, the CTE decoder a whole array)
+		rr := [][]ev.Event{
+			{{K: ev.Array, AT: events.ArrayTypeReferenceRemote, U: 3, Bs: []byte("x:y")}},
+			{{K: ev.StringArray, AT: events.ArrayTypeReferenceRemote, S: "x:y"}},
+			{{K: ev.ArrayBegin, AT: events.ArrayTypeReferenceRemote}, {K: ev.ArrayChunk, U: 3}, {K: ev.ArrayData, Bs: []byte("x:y")}},
+			{{K: ev.ArrayBegin, AT: events.ArrayTypeReferenceRemote}, {K: ev.ArrayChunk, U: 1, B: true}, {K: ev.ArrayData, Bs: []byte("x")}, {K: ev.ArrayChunk, U: 2}, {K: ev.ArrayData, Bs: []byte(":y")}},
+		}[rapid.IntRange(0, 3).Draw(t, "rrform")]
+		ins := append([]ev.Event{{K: ev.Marker, Bs: []byte("extra")}}, rr...)
+		if rapid.Bool().Draw(t, "rrused") {
+			ins = append(ins, ev.Event{K: ev.RefLocal, Bs: []byte("extra")})
+		}
+		if lists := findKinds(evs, ev.List); len(lists) > 0 {
+			at := pick(lists, "rrat") + 1
+			evs = append(evs[:at:at], append(ins, evs[at:]...)...)
+		} else {
+			evs = append(append([]ev.Event{{K: ev.BD}, {K: ev.Version}, {K: ev.List}}, ins...), ev.Event{K: ev.End}, ev.Event{K: ev.ED})
+		}
 	case "drop-marker":
 		if len(markers) == 0 {
 			c.Mutation = "none"
